@@ -83,11 +83,34 @@ def gen_residue(rng, resid, force=None):
         rng.shuffle(ns)
         for a, n in zip(atoms, ns):
             a['name'] = n
+    if pres == 'permute_same_degree':
+        # names moved around among atoms of one element with the same number of bonds: the graph of the residue, numbered
+        # by name, keeps its degree sequence and its element classes
+        deg = {}
+        for u, v in bonds:
+            deg[u] = deg.get(u, 0) + 1
+            deg[v] = deg.get(v, 0) + 1
+        classes = {}
+        for a in atoms:
+            classes.setdefault((deg.get(a['ref'], 0), a['el']), []).append(a)
+        for cl in classes.values():
+            ns = [a['name'] for a in cl]
+            rng.shuffle(ns)
+            for a, n in zip(cl, ns):
+                a['name'] = n
     return {'resname': resname, 'resid': resid, 'atoms': atoms, 'bonds': bonds, 'req': req, 'presentation': pres}
 
 
 def gen_case(rng, force=None):
-    residues = [gen_residue(rng, i + 1, force) for i in range(1 if force else rng.choice([1, 1, 2, 2, 3]))]
+    if force is None and rng.random() < 0.3:
+        # the same residue type several times in one molecule, first as it is in the force field, then with its names
+        # permuted / scrambled: the matcher keeps what it learnt about the symmetry of the first for the later ones
+        rn = rng.choice(sorted(BLOCKS))
+        residues = [gen_residue(rng, 1, (rn, rng.choice(['asis', 'asis', 'noH'])))]
+        for i in range(rng.choice([1, 1, 2])):
+            residues.append(gen_residue(rng, i + 2, (rn, rng.choice(['permute_same_degree', 'permute_same_degree', 'permute_names', 'scramble', 'asis', 'noH+scramble']))))
+    else:
+        residues = [gen_residue(rng, i + 1, force) for i in range(1 if force else rng.choice([1, 1, 2, 2, 3]))]
     # flatten with keys
     n_atoms = sum(len(r['atoms']) for r in residues)
     style = rng.random()
@@ -147,6 +170,44 @@ def gen_real_case(rng):
     return {'atoms': atoms, 'bonds': bonds, 'presentations': ['real:' + pres], 'ff': 'charmm'}
 
 
+def gen_real_pair_case(rng):
+    """two complete residues (all hydrogens) of one type of the shipped charmm force field in one molecule: the first as
+    the force field has it, the second with its names moved around among atoms of one element and degree, names listed in
+    block order: the matcher's symmetry bookkeeping of the first must not be applied to the second"""
+    ff = real_ff()
+    resname = rng.choice(['LEU', 'VAL', 'LEU', 'GLU', 'ASP', 'ILE', 'THR', 'ALA', 'LYS'])
+    block = ff.blocks[resname]
+    names = list(block.nodes)
+    el = {n: (block.nodes[n].get('element') or [c for c in block.nodes[n]['atomname'] if c.isalpha()][0]) for n in names}
+    deg = {n: block.degree(n) for n in names}
+    atoms, bonds = [], []
+    key = iter(rng.sample(range(0, 200), 2 * len(names)) if rng.random() < 0.3 else range(10 ** 6))
+    prev_c = None
+    for resid in (1, 2):
+        given = {n: n for n in names}                 # true block atom -> name written in the input
+        if resid == 2:
+            classes = {}
+            for n in names:
+                classes.setdefault((deg[n], el[n]), []).append(n)
+            for cl in classes.values():
+                ns = list(cl)
+                rng.shuffle(ns)
+                for n, g in zip(cl, ns):
+                    given[n] = g
+        inverse = {g: n for n, g in given.items()}
+        local = {}
+        for g in names:                               # the names appear in block order
+            n = inverse[g]
+            k = next(key)
+            local[n] = k
+            atoms.append({'key': k, 'name': g, 'el': el[n], 'resname': resname, 'resid': resid, 'req': {}, 'ref': n})
+        bonds += [[local[u], local[v]] for u, v in block.edges]
+        if prev_c is not None and 'N' in local:
+            bonds.append([prev_c, local['N']])
+        prev_c = local.get('C')
+    return {'atoms': atoms, 'bonds': bonds, 'presentations': ['real:asis', 'real:permute_same_degree'], 'ff': 'charmm'}
+
+
 def generate(rng, tier):
     cases = [gen_case(rng) for _ in range(260 if tier == 'quick' else 4000)]
     # symmetric heavy-atom pairs, hydrogens stripped, names scrambled, many atom orders
@@ -154,6 +215,8 @@ def generate(rng, tier):
         cases.append(gen_case(rng, force=(rng.choice(['GLX', 'ARX', 'CBX']), 'noH+scramble')))
     for _ in range(400 if tier == 'quick' else 4000):
         cases.append(gen_real_case(rng))
+    for _ in range(40 if tier == 'quick' else 400):
+        cases.append(gen_real_pair_case(rng))
     return cases
 
 
